@@ -328,6 +328,7 @@ func (x *Exec) runOp(p *Process, op *OpSpec, res *OpResult) {
 		in.SkipCRDs = op.SkipCRDs
 		in.IncludeCRDs = op.IncludeCRDs
 		in.SkipSchemaValidation = op.SkipSchema
+		in.DisableOpenAPIValidation = op.NoOpenAPI
 		in.Labels = op.Labels
 		in.Force = op.Force
 		in.SubNotes = op.SubNotes
@@ -349,6 +350,7 @@ func (x *Exec) runOp(p *Process, op *OpSpec, res *OpResult) {
 		up.DryRun = op.DryRun
 		up.DryRunOption = op.DryRunOption
 		up.SkipSchemaValidation = op.SkipSchema
+		up.DisableOpenAPIValidation = op.NoOpenAPI
 		up.SkipCRDs = op.SkipCRDs
 		up.Labels = op.Labels
 		up.CleanupOnFail = op.CleanupOnFail
@@ -890,6 +892,7 @@ func opFlags(o *OpSpec) string {
 	add(o.KeepHistory, "keephist")
 	add(o.Wait, "wait")
 	add(o.SkipSchema, "skipschema")
+	add(o.NoOpenAPI, "noopenapi")
 	add(o.Op == "rollback", fmt.Sprintf("to%d", o.Revision))
 	if len(f) == 0 {
 		return ""
